@@ -183,10 +183,18 @@ def fold_sums_in_model_domain(d, nb):
         if arr is None or nb is None or int(nb) <= 0:
             return True
         canon = {'KBit': 'bool', 'KCount': 'uint16', 'KFloat': 'float64'}[dbgen.kind_of_type(d.fp_type)]
-        if str(arr.dtype) == canon or arr.dtype.kind not in 'iu':
+        if str(arr.dtype) == canon or arr.dtype.kind not in 'iuf':
+            return True
+        coo = arr.tocoo()
+        if arr.dtype.kind == 'f':
+            # float32 / float16 storage: collision sums are rounded in that width; only collision-free folds are in the domain
+            seen = set()
+            for r, c in zip(coo.row.tolist(), coo.col.tolist()):
+                if (r, c % int(nb)) in seen:
+                    return False
+                seen.add((r, c % int(nb)))
             return True
         lim = min(2 ** 16, int(np.iinfo(arr.dtype).max) + 1)
-        coo = arr.tocoo()
         sums = {}
         for r, c, v in zip(coo.row.tolist(), coo.col.tolist(), coo.data.tolist()):
             sums[(r, c % int(nb))] = sums.get((r, c % int(nb)), 0) + int(v)
